@@ -140,6 +140,29 @@ def judge_c05(obs: L.Obs) -> list[tuple[str, str]]:
             _stat(f"c05/return-state-checked/{c.name}")
             if st != want:
                 out.append((f"C05/{c.name}-returned-in-{st}", f"{c.name} returned normally while state was {st}"))
+    # a disconnect()/force disconnect that has returned has taken effect; a connect phase that failed leaves the object closed
+    for c in obs.calls:
+        if c.seq_ret is None or not obs.conns:
+            continue
+        older = [v for v in obs.conns if v.created_seq < c.seq_call]
+        if c.name in ("disconnect", "force_disconnect") and c.outcome == "ok" and older:
+            v = older[-1]
+            st = state_at(v, c.seq_ret + 1)
+            _stat(f"c05/state-after-{c.name}-returned/{st}")
+            if st != "CLOSED":
+                out.append((f"C05/{c.name}-returned-in-{st}", f"{c.name}() returned normally but connection {v.idx} is {st}, not CLOSED (cause {cause_tag(obs)})"))
+            else:
+                later = [s_ for s_ in v.states if s_[0] > c.seq_ret and s_[3].name != "CLOSED"]
+                if later:
+                    out.append((f"C05/leave-closed/{later[0][3].name}", f"connection {v.idx} moved to {later[0][3].name} after {c.name}() had returned"))
+        if c.name in ("start", "finish", "connect") and c.outcome in ("raised", "cancelled"):
+            mine = [v for v in obs.conns if v.created_seq > c.seq_call and v.created_seq < c.seq_ret] if c.name != "finish" else older[-1:]
+            for v in mine[:1]:
+                st = state_at(v, c.seq_ret + 1)
+                _stat(f"c05/state-after-failed-{c.name}/{st}")
+                if st != "CLOSED":
+                    out.append((f"C05/failed-{c.name}-left-{st}", f"{c.name}() ended {c.outcome} ({c.exc!r}) but its connection {v.idx} is {st}, not CLOSED: the object could be used "
+                                f"for another attempt (cause {cause_tag(obs)})"))
     for p in getattr(obs, "reuse_probes", []):
         _stat(f"c05/reuse-probe/{p['op']}/{p['state']}")
         if p["raised"] != "RuntimeError":
@@ -270,6 +293,12 @@ def judge_c09(obs: L.Obs) -> list[tuple[str, str]]:
             out.append((f"C09/raw-exception/{c.name}/{type(c.exc).__name__}", f"{c.name} raised {c.exc!r} (cause {cause_tag(obs)})"))
     # first cause wins
     for v in obs.conns:
+        # the recorded fatal cause of a connection is written once: a later failure must not replace the first one
+        for seq_, t_, old_, new_ in getattr(v, "fatal_sets", []):
+            _stat("c09/fatal-cause-writes")
+            if old_ is not None and new_ is not old_:
+                out.append(("C09/first-cause-overwritten", f"connection {v.idx}: recorded fatal cause {old_!r} replaced by {new_!r} at t={t_:.6f} (cause {cause_tag(obs)})"))
+                break
         if not v.fatals:
             continue
         fseq, ft, F1 = v.fatals[0]
@@ -548,6 +577,27 @@ def same_turn_pairs_sweep(ctx: Ctx, prop: str) -> None:
                         faults.append({"kind": net, "point": {"t": t}, "posclass": "same-turn"})
                     faults.append({"kind": user, "point": {"t": t, "after_io": after_io}, "posclass": "same-turn-after-io" if after_io else "same-turn-before-io"})
                     record(ctx, prop, run_spec({**bspec, "faults": faults}), "same-turn-pair/" + label)
+
+
+def raising_on_stop_sweep(ctx: Ctx, prop: str) -> None:
+    """The application's stop callback raises synchronously: whatever happens to that exception, the closing connection must still have
+    released its transport, socket and timers (the callback is the LAST thing a close does)."""
+    S = L.default_spec
+    t0 = L.core_start()
+    idx = 0
+    for framing in ("plain", "noise"):
+        for keepalive, prog in ((20.0, [["connect"], ["sleep", 3.0], ["disconnect"]]), (1.0, [["connect"], ["sleep", 9.0], ["force"]])):
+            for cause in ("none", "force", "disconnect", "eof", "rst", "garbage", "bad_pb", "peer_disconnect", "silence", "sendfail+cmd"):
+                idx += 1
+                if not ctx.mine(idx):
+                    continue
+                faults: list[dict[str, Any]] = []
+                if cause == "sendfail+cmd":
+                    faults = [{"kind": "sendfail", "point": {"t": t0 + 1.0}, "posclass": "raising-on_stop"}, {"kind": "cmd", "point": {"t": t0 + 1.1}, "posclass": "raising-on_stop"}]
+                elif cause != "none":
+                    faults = [{"kind": cause, "point": {"t": t0 + 1.0}, "posclass": "raising-on_stop"}]
+                spec = S(framing=framing, keepalive=keepalive, program=prog, on_stop_mode="raises", faults=faults)
+                record(ctx, prop, run_spec(spec), "raising-on_stop")
 
 
 def connect_fault_sweep(ctx: Ctx, prop: str) -> None:
